@@ -343,6 +343,9 @@ func initTypes(at reflect.Type) {
 					panic(fmt.Sprintf("given type %s, need type %s", v.Type(), at))
 				}
 				fv := v.Elem().Field(i)
+				if n, ok := v.Interface().(Node); ok {
+					stmt.parent = n
+				}
 				fv.Set(reflect.Append(fv, reflect.ValueOf(stmt)))
 				return nil
 			}
